@@ -239,6 +239,9 @@ def gen_e2e(rng):
     if rng.random() < 0.15:
         # unit-operation zones are targeted too (after their parent): the parent's record must keep its own duties
         inp["options"] = dict(DO_DIRECT_OPERATION_TARGETING=True)
+    elif rng.random() < 0.2:
+        # the optional curve analyses run next to utility targeting and must not change what it is fed
+        inp["options"] = {o: rng.random() < 0.6 for o in ("DO_VERTICAL_GCC", "DO_ASSITED_HT", "DO_BALANCED_CC")}
     return inp
 
 
